@@ -1,7 +1,8 @@
 ---------------------------- MODULE MC_Emission ----------------------------
 (* Exhaustive / export model for C02: the tables and the export constraint. *)
-EXTENDS Emission, Json
-CONSTANTS Export, TabId
+EXTENDS Emission, Json, PlanckTol
+CONSTANTS Export, TabId,
+          InterpIds       \* interpretations (below) under which the exported vectors are to be replayed; {} = the first only
 
 \* Planck-like tables: positive, strictly increasing in t, different shape per wavenumber
 MCBtabs == << << <<1, 2>>, <<2, 7>>, <<5, 9>> >>,
@@ -11,6 +12,57 @@ MCBstar == <<7, 11>>
 
 ASSUME TableOk
 ASSUME \A i \in QuadIds : i \in DOMAIN QuadTable
+
+\* ---------------------------------------------------------------------------------------------------------
+\* Interpretations of the uninterpreted Planck table: exported input classes of binding A.
+\* The clauses above are proved by TLC for EVERY positive table that increases with the temperature index, so the
+\* exact B-sums of the exported vectors are the documented integral under every reading
+\*        Btab[t][w] = B(wn[w], T_t),   Bstar[w] = B(wn[w], star),   T_t = base[t] * (1 + (t-1)/stepden)
+\* with T_1 < T_2 < T_3 (stepden = 0: T_t = base[t]).  Two dimensions of "all temperature profiles ... stars and
+\* planets" are spanned here that a single reading (mid-infrared, temperatures hundreds of K apart) never varies:
+\*   * the SPACING of the layer temperatures: relative steps 1e-3 .. 1e-8 -- layers that an implementation may take
+\*     for "the same temperature" (an approximate comparison, a rounded cache key) although their Planck functions
+\*     differ by far more than the arithmetic of the integral can blur (clause PerLayerSource, variant
+\*     "source_reused_if_close");
+\*   * the spectral / thermal REGIME x = h c nu / k T of planet and star: Rayleigh-Jeans tail (x down to 4e-4), peak,
+\*     Wien tail (x up to 144), where a series / asymptotic form of the Planck function would be switched on.
+\* PlanckTol gives, per (wavenumber, temperature), the rounding the documented formula may legitimately carry; the
+\* binding compares at  1e-12  +  twice the largest Planck tolerance of the reading.  The 1e-12 is the arithmetic of
+\* the layered sum: every term B(T_l) (T'_{l+1} - T'_l) is non-negative; an optical depth built from ~6 rounded
+\* factors carries a relative error 6u (u = 2^-53), its transmittance exp(-tau/mu) a relative error (6 tau/mu + 1) u,
+\* a difference of two transmittances that differ by a factor >= 2 (or are equal) at most 4 (6 tau/mu + 1) u
+\* <= 4.4e-13 for the largest slant depth of the exported vectors (tau/mu = 240 ln 2).
+InterpTable == <<
+  [id |-> "mir_wide",     wn |-> <<800, 2500>>,    base |-> <<600, 1100, 1700>>,   stepden |-> 0,         star |-> 5000],
+  [id |-> "mir_close3",   wn |-> <<800, 2500>>,    base |-> <<1500, 1500, 1500>>,  stepden |-> 1000,      star |-> 5000],
+  [id |-> "mir_close5",   wn |-> <<700, 2200>>,    base |-> <<900, 900, 900>>,     stepden |-> 100000,    star |-> 4500],
+  [id |-> "nir_close6",   wn |-> <<3000, 9000>>,   base |-> <<2000, 2000, 2000>>,  stepden |-> 1000000,   star |-> 4000],
+  [id |-> "mir_close8",   wn |-> <<500, 2500>>,    base |-> <<700, 700, 700>>,     stepden |-> 100000000, star |-> 6000],
+  [id |-> "farir",        wn |-> <<2, 30>>,        base |-> <<900, 1500, 2500>>,   stepden |-> 0,         star |-> 7000],
+  [id |-> "farir_close5", wn |-> <<5, 40>>,        base |-> <<1200, 1200, 1200>>,  stepden |-> 200000,    star |-> 6000],
+  [id |-> "wien",         wn |-> <<20000, 40000>>, base |-> <<400, 700, 1000>>,    stepden |-> 0,         star |-> 3000],
+  [id |-> "wide_span",    wn |-> <<3, 30000>>,     base |-> <<300, 1000, 3000>>,   stepden |-> 0,         star |-> 10000] >>
+
+InterpLicensed(ip) ==
+    /\ Len(ip.wn) >= NW /\ Len(ip.base) = NT /\ ip.star > 0 /\ ip.stepden >= 0
+    /\ \A w \in 1..NW : ip.wn[w] > 0 /\ (w < NW => ip.wn[w] < ip.wn[w + 1])
+    /\ \A t \in 1..NT : ip.base[t] > 0
+    /\ \A t \in 1..(NT - 1) : IF ip.stepden = 0 THEN ip.base[t] < ip.base[t + 1] ELSE ip.base[t] <= ip.base[t + 1]
+    /\ \A w \in 1..NW : /\ XDomainOk(XUnits(ip.wn[w], ip.star))
+                        /\ \A t \in 1..NT : XDomainOk(XUnits(ip.wn[w], ip.base[t]))
+ASSUME \A i \in InterpIds : i \in DOMAIN InterpTable /\ InterpLicensed(InterpTable[i])
+
+InterpExport(i) ==
+    LET ip == InterpTable[i] IN
+    [idx |-> i, id |-> ip.id, wn |-> [w \in 1..NW |-> ip.wn[w]], star |-> ip.star,
+     \* T_t = base * num / den
+     temps |-> [t \in 1..NT |-> IF ip.stepden = 0 THEN <<ip.base[t], 1, 1>> ELSE <<ip.base[t], ip.stepden + t - 1, ip.stepden>>],
+     spacing |-> IF ip.stepden = 0 THEN "wide" ELSE "close",
+     tolu |-> [w \in 1..NW |-> [t \in 1..NT |-> PlanckTolU(XUnits(ip.wn[w], ip.base[t]))]],
+     startolu |-> [w \in 1..NW |-> PlanckTolU(XUnits(ip.wn[w], ip.star))],
+     decades |-> {XDecade(XUnits(ip.wn[w], ip.base[t])) : w \in 1..NW, t \in 1..NT}
+                 \cup {XDecade(XUnits(ip.wn[w], ip.star)) : w \in 1..NW}]
+ASSUME \A i \in InterpIds : PrintT(<<"INTERP", ToJson(InterpExport(i))>>)
 
 Emit == (Export /\ pc = "done") =>
     PrintT(<<"VEC", ToJson([e |-> e, tp |-> tp, qid |-> qid, quad |-> Quad, kind |-> kind,
